@@ -75,6 +75,31 @@ CHECKS['C19'] = dict(
    technique='contract-based deductive verification of loader selection + bounded exhaustive enumeration of the argv family and generated modules',
    design_ref='DESIGN.md 5 C19')
 
+CHECKS['C04'] = dict(
+   category='other',
+   text='Mixed. Proved on the real checkfiles.py: normalize_function selects exactly the requested stripping; can_ignore holds '
+        'iff the reference line contains an ignore-substring or the lines are pattern-equivalent (loop invariant over the substring '
+        'list; check_patterns uninterpreted). The verdict of check_strings and of the three entry points is decided by the bounded '
+        'layer (labelled): an independent statement of the comparison rule (removal, stripping, substring/pattern excuses by dynamic '
+        'programming, permutation allowance) evaluated on reference texts <= 3 lines x near-miss actuals x 22 option sets, judging '
+        'only cases the documents fix (must-pass and must-fail separately).',
+   note='Trusted: Python re, str methods, splitlines. check_strings itself (250 lines of list surgery with regex callbacks) is not under '
+        'a deductive contract: bounded only. The oracle leaves pattern cases open when strict and permissive readings differ.',
+   technique='contract-based deductive verification of the comparison helpers + bounded runtime contracts against an independent oracle',
+   design_ref='DESIGN.md 5 C04')
+CHECKS['C15'] = dict(
+   category='proof',
+   text='check_binary_file of the real checkfiles.py is proved (loop invariant: all bytes before the cursor agree) to report a failure '
+        'iff the byte strings differ, the least differing offset (or the shorter length) and exact lengths, and to write nothing itself; '
+        'write_file is proved to write exactly the file it is given; add_failures is proved to write only under tmp_dir, nothing when '
+        'temporaries are not requested, and exactly one raw file per side lacking a path plus the post-processed pair. The message/file '
+        'contents sentences (named files exist, raw actual holds the actual, post-processed pair differs on unexcused lines, passes write '
+        'nothing) are decided by the bounded layer (labelled) with directory snapshots.',
+   note='Trusted: A-fs effect table, A-path (separator-free tails, join under), compare_with/get_encoding write nothing, z3. reconstruct() '
+        'is bounded only.',
+   technique='contract-based deductive verification (loop invariant, ghost write-set frames) + bounded runtime contracts',
+   design_ref='DESIGN.md 5 C15')
+
 NA_REASON = 'check under construction in this session (see DESIGN.md 8, build order)'
 
 def main():
